@@ -208,10 +208,10 @@ theorem repeat_eval_same_result {α : Type} {s : Store} {op : Op} {e : Effect} {
 
 /-- **fit_frame_disjoint.** If no *mutable* object is reachable both from `A` and from `B`, then
 `fit A` (any effect within its footprint) leaves every object reachable from `B` unchanged. -/
-theorem fit_frame_disjoint {s : Store} {A : ObjId} {args : List ObjId} {e : Effect}
+theorem fit_frame_disjoint {s : Store} {A : ObjId} {descs args : List ObjId} {e : Effect}
     {rootsB : List ObjId} (hwf : WF s) (hl : Live s rootsB)
-    (ha : Admissible s (.fit A args) e)
-    (hsep : ∀ o, Reach s [A] o → Reach s rootsB o → s.isMut o = false)
+    (ha : Admissible s (.fit A descs args) e)
+    (hsep : ∀ o, Reach s (A :: descs) o → Reach s rootsB o → s.isMut o = false)
     {o : ObjId} (h : Reach s rootsB o) : (s.apply e).get o = s.get o := by
   apply frame_get hwf hl _ h
   intro w hw hr
@@ -221,10 +221,10 @@ theorem fit_frame_disjoint {s : Store} {A : ObjId} {args : List ObjId} {e : Effe
   rw [this.2] at h2
   exact Bool.noConfusion h2
 
-theorem fit_frame_disjoint_reach {s : Store} {A : ObjId} {args : List ObjId} {e : Effect}
+theorem fit_frame_disjoint_reach {s : Store} {A : ObjId} {descs args : List ObjId} {e : Effect}
     {rootsB : List ObjId} (hwf : WF s) (hl : Live s rootsB)
-    (ha : Admissible s (.fit A args) e)
-    (hsep : ∀ o, Reach s [A] o → Reach s rootsB o → s.isMut o = false) (o : ObjId) :
+    (ha : Admissible s (.fit A descs args) e)
+    (hsep : ∀ o, Reach s (A :: descs) o → Reach s rootsB o → s.isMut o = false) (o : ObjId) :
     Reach (s.apply e) rootsB o ↔ Reach s rootsB o := by
   apply frame_reach hwf hl _ o
   intro w hw hr
@@ -274,18 +274,16 @@ def StaticOK (fitted : List ObjId) : Store → List (Op × Effect) → Prop
   | s, st :: rest =>
     Admissible s st.1 st.2 ∧ EffWF s st.2 ∧
     (match st.1 with
-     | .fit m _ => m ∈ fitted ∧ NoCapture s m st.2
+     | .fit m ds _ => (∀ r ∈ m :: ds, r ∈ fitted) ∧ NoCapture s (m :: ds) st.2
      | _ => True) ∧
     StaticOK fitted (s.apply st.2) rest
 
 /-- what a no-capture fit can reach afterwards: fresh objects or what was reachable before -/
-theorem reach_after_fit {s : Store} {fitted : List ObjId} {m : ObjId} {args : List ObjId}
-    {e : Effect} (hm : m ∈ fitted)
-    (hnc : NoCapture s m e) {o : ObjId} (h : Reach (s.apply e) fitted o) :
+theorem reach_after_fit {s : Store} {fitted fr : List ObjId}
+    {e : Effect} (hm : ∀ r ∈ fr, r ∈ fitted)
+    (hnc : NoCapture s fr e) {o : ObjId} (h : Reach (s.apply e) fitted o) :
     s.next ≤ o ∨ Reach s fitted o := by
-  have _ := args
-  have hsub : ∀ o, Reach s [m] o → Reach s fitted o := fun o ho =>
-    reach_mono_roots (by intro r hr; simp at hr; exact hr ▸ hm) ho
+  have hsub : ∀ o, Reach s fr o → Reach s fitted o := fun o ho => reach_mono_roots hm ho
   induction h with
   | root hr => exact Or.inr (Reach.root hr)
   | @step o o' ob _ hget hmem ih =>
@@ -320,10 +318,10 @@ theorem interleaving_static {fitted rootsB : List ObjId} (steps : List (Op × Ef
       intro w hwm hr
       have hf := ha w hwm
       cases hst : st.1 with
-      | fit m args =>
+      | fit m ds args =>
         rw [hst] at hf hop
         simp only [footprint] at hf
-        exact hsep _ (reach_mono_roots (by intro r hr; simp at hr; exact hr ▸ hop.1) hf.1) hr
+        exact hsep _ (reach_mono_roots hop.1 hf.1) hr
       | _ => rw [hst] at hf; exact hf
     -- separation is preserved
     have hsep' : ∀ o, Reach (s.apply st.2) fitted o → ¬ Reach (s.apply st.2) rootsB o := by
@@ -331,9 +329,9 @@ theorem interleaving_static {fitted rootsB : List ObjId} (steps : List (Op × Ef
       have hB' := (frame_reach hwf hlB hw o).mp hB
       have hfreshOrOld : s.next ≤ o ∨ Reach s fitted o := by
         cases hst : st.1 with
-        | fit m args =>
+        | fit m ds args =>
           rw [hst] at hop
-          exact reach_after_fit (args := args) hop.1 hop.2 hA
+          exact reach_after_fit hop.1 hop.2 hA
         | _ =>
           right
           have hnw : st.2.writes = [] :=
@@ -536,9 +534,9 @@ theorem liveB_sound (s : Store) (roots : List ObjId) (h : liveB s roots = true) 
 theorem mem_footprintList_sound (s : Store) (op : Op) (o : ObjId)
     (h : o ∈ footprintList s op) : footprint s op o := by
   cases op with
-  | fit m args =>
+  | fit m ds args =>
     simp only [footprintList, List.mem_filter] at h
-    exact ⟨reachList_sound s [m] o h.1, h.2⟩
+    exact ⟨reachList_sound s (m :: ds) o h.1, h.2⟩
   | _ => simp [footprintList] at h
 
 /-- the observed write set passes the driver's check ⇒ the effect is admissible -/
@@ -555,19 +553,19 @@ theorem effWFB_sound (s : Store) (e : Effect) (h : effWFB s e = true) : EffWF s 
   · intro w hw o' ho'; simpa using h.1 w hw o' ho'
   · intro ob hob o' ho'; simpa using h.2 ob hob o' ho'
 
-theorem noCaptureB_sound (s : Store) (m : ObjId) (e : Effect) (h : noCaptureB s m e = true) :
-    NoCapture s m e := by
+theorem noCaptureB_sound (s : Store) (fr : List ObjId) (e : Effect) (h : noCaptureB s fr e = true) :
+    NoCapture s fr e := by
   simp only [noCaptureB, Bool.and_eq_true, List.all_eq_true, Bool.or_eq_true,
     decide_eq_true_eq] at h
   constructor
   · intro w hw o' ho'
     rcases h.1 w hw o' ho' with h1 | h1
     · exact Or.inl h1
-    · exact Or.inr (reachList_sound s [m] o' (contains_true_iff.mp h1))
+    · exact Or.inr (reachList_sound s fr o' (contains_true_iff.mp h1))
   · intro ob hob o' ho'
     rcases h.2 ob hob o' ho' with h1 | h1
     · exact Or.inl h1
-    · exact Or.inr (reachList_sound s [m] o' (contains_true_iff.mp h1))
+    · exact Or.inr (reachList_sound s fr o' (contains_true_iff.mp h1))
 
 /-- "the model says root `r` is untouched" ⇒ no write lands in `r`'s sub-store, hence
 (by `frame_get`, `frame_reach`) the sub-store is unchanged -/
@@ -582,29 +580,29 @@ theorem touchedB_false_sound (s : Store) (r : ObjId) (ws : List ObjId)
   rw [h] at this
   exact Bool.noConfusion this
 
-theorem sharedMut_nil_sound (s : Store) (a b : ObjId)
-    (hca : closedB s [a] (reachList s [a]) = true) (hcb : closedB s [b] (reachList s [b]) = true)
-    (h : sharedMut s a b = []) :
-    ∀ o, Reach s [a] o → Reach s [b] o → s.isMut o = false := by
+theorem sharedMut_nil_sound (s : Store) (as : List ObjId) (b : ObjId)
+    (hca : closedB s as (reachList s as) = true) (hcb : closedB s [b] (reachList s [b]) = true)
+    (h : sharedMut s as b = []) :
+    ∀ o, Reach s as o → Reach s [b] o → s.isMut o = false := by
   intro o ha hb
   cases hm : s.isMut o with
   | false => rfl
   | true =>
     exfalso
-    have : o ∈ sharedMut s a b := by
+    have : o ∈ sharedMut s as b := by
       simp only [sharedMut, List.mem_filter]
-      exact ⟨⟨closedB_complete s [a] _ hca o ha,
+      exact ⟨⟨closedB_complete s as _ hca o ha,
         contains_true_iff.mpr (closedB_complete s [b] _ hcb o hb)⟩, hm⟩
     rw [h] at this
     simp at this
 
-theorem sharedAny_nil_sound (s : Store) (a b : ObjId)
-    (hca : closedB s [a] (reachList s [a]) = true) (hcb : closedB s [b] (reachList s [b]) = true)
-    (h : sharedAny s a b = []) : ∀ o, Reach s [a] o → ¬ Reach s [b] o := by
+theorem sharedAny_nil_sound (s : Store) (as : List ObjId) (b : ObjId)
+    (hca : closedB s as (reachList s as) = true) (hcb : closedB s [b] (reachList s [b]) = true)
+    (h : sharedAny s as b = []) : ∀ o, Reach s as o → ¬ Reach s [b] o := by
   intro o ha hb
-  have : o ∈ sharedAny s a b := by
+  have : o ∈ sharedAny s as b := by
     simp only [sharedAny, List.mem_filter]
-    exact ⟨closedB_complete s [a] _ hca o ha,
+    exact ⟨closedB_complete s as _ hca o ha,
       contains_true_iff.mpr (closedB_complete s [b] _ hcb o hb)⟩
   rw [h] at this
   simp at this
@@ -636,25 +634,25 @@ example : closedB exStore [0] (reachList exStore [0]) = true ∧
     closedB exStore [2] (reachList exStore [2]) = true := by decide
 example : reachList exStore [0] = [4, 1, 0] := by decide
 -- A and B share object 4, but it is immutable: the hypothesis of `fit_frame_disjoint` holds
-example : sharedAny exStore 0 2 = [4] ∧ sharedMut exStore 0 2 = [] := by decide
-example : admissibleB exStore (.fit 0 [5]) (exFit.writes.map (·.1)) = true := by decide
-example : effWFB exStore exFit = true ∧ noCaptureB exStore 0 exFit = true := by decide
+example : sharedAny exStore [0] 2 = [4] ∧ sharedMut exStore [0] 2 = [] := by decide
+example : admissibleB exStore (.fit 0 [] [5]) (exFit.writes.map (·.1)) = true := by decide
+example : effWFB exStore exFit = true ∧ noCaptureB exStore [0] exFit = true := by decide
 -- the fit really changes A …
 example : (exStore.apply exFit).get 1 = some ⟨true, [.imm 11]⟩ := by decide
 -- … and is not admissible as an evaluation op, nor if it wrote B's parameters
 example : admissibleB exStore (.eval 0 [5]) (exFit.writes.map (·.1)) = false := by decide
-example : admissibleB exStore (.fit 0 [5]) [3] = false := by decide
+example : admissibleB exStore (.fit 0 [] [5]) [3] = false := by decide
 example : touchedB exStore 2 (exFit.writes.map (·.1)) = false ∧
     touchedB exStore 0 (exFit.writes.map (·.1)) = true := by decide
 -- conclusion of fit_frame_disjoint on the example, by the theorem
 example : (exStore.apply exFit).get 3 = exStore.get 3 :=
-  fit_frame_disjoint (A := 0) (args := [5]) (rootsB := [2]) (wfB_sound _ (by decide))
+  fit_frame_disjoint (A := 0) (descs := []) (args := [5]) (rootsB := [2]) (wfB_sound _ (by decide))
     (liveB_sound _ _ (by decide)) (admissibleB_sound _ _ _ (by decide))
-    (sharedMut_nil_sound _ 0 2 (by decide) (by decide) (by decide))
+    (sharedMut_nil_sound _ [0] 2 (by decide) (by decide) (by decide))
     (Reach.step (Reach.root (List.mem_cons_self ..)) (ob := ⟨true, [.ref 3, .ref 4]⟩) (by decide)
       (by decide))
 -- an interleaving eval ; fit A ; eval that satisfies the static conditions with B = {2, 5}
-example : StaticOK [0] exStore [(.fit 0 [5], exFit), (.eval 0 [5], exEval), (.plot [0, 5], ⟨[], []⟩)] := by
+example : StaticOK [0] exStore [(.fit 0 [] [5], exFit), (.eval 0 [5], exEval), (.plot [0, 5], ⟨[], []⟩)] := by
   refine ⟨admissibleB_sound _ _ _ (by decide), effWFB_sound _ _ (by decide),
     ⟨by decide, noCaptureB_sound _ _ _ (by decide)⟩, ?_⟩
   refine ⟨admissibleB_sound _ _ _ (by decide), effWFB_sound _ _ (by decide), trivial, ?_⟩
